@@ -62,7 +62,10 @@ func (lifecycle *Lifecycle) Error(e ...error) {
 
 // Errors return lifecycle error array
 func (lifecycle *Lifecycle) Errors() []error {
-	return goaterr.AppendError(lifecycle.errors, lifecycle.ctx.Err())
+	lifecycle.mutex.Lock()
+	errs := append([]error{}, lifecycle.errors...)
+	lifecycle.mutex.Unlock()
+	return goaterr.AppendError(errs, lifecycle.ctx.Err())
 }
 
 // Step return lifecycle step
